@@ -56,7 +56,8 @@ func c19List(r *core.Result, vals []banderwagon.Element, block []int, desc strin
 	var ub [][64]byte
 	res := make([]*fr.Element, L)
 	for i := range res {
-		res[i] = new(fr.Element)
+		d := dirtyFr()
+		res[i] = &d
 	}
 	var merr error
 	if !guard(r, "c19.panic", "batch helpers", desc, func() {
@@ -84,7 +85,7 @@ func c19List(r *core.Result, vals []banderwagon.Element, block []int, desc strin
 		if want := els[i].BytesUncompressedTrusted(); ub[i] != want {
 			vio(r, "c19.batch", "banderwagon.BatchToBytesUncompressed", desc, fmt.Sprintf("[%d] = BytesUncompressedTrusted() = %x", i, want), fmt.Sprintf("%x", ub[i]))
 		}
-		var m fr.Element
+		m := dirtyFr()
 		els[i].MapToScalarField(&m)
 		if !m.Equal(res[i]) {
 			vio(r, "c19.batch", "banderwagon.BatchMapToScalarField", desc, fmt.Sprintf("[%d] = MapToScalarField() = %s", i, frToBig(m).Text(16)), frToBig(*res[i]).Text(16))
